@@ -465,3 +465,18 @@ for _p in ("C06", "C13"):
 # cluster runs in a debug-assertion build also serve C06 (panics are reported by Trace_Cluster)
 PROPS["C06"]["drivers"]["quick"] += [cl("c04", [], 2), cl("c02", ["--runs", "40", "--nmax", "8"], 1)]
 PROPS["C06"]["drivers"]["thorough"] += [cl("c04", ["--thorough"], 4), cl("c02", ["--runs", "200", "--nmax", "12"], 4)]
+
+
+# C05 on the specification: the exhaustive run of the partition/heal model (N=3) exceeds 1.5*10^7 states without
+# finishing, so it is explored with TLC's random walks (every walk: form, cut {0}|{1,2}, mutual Down, heal at one of
+# the instants of an announce period, converge); the level claimed stays "exploration"
+PROPS["C05"]["mc"] = [
+    {"module": "MC_Cluster", "cfg": "MC_Cluster_c05_n3.cfg", "workers": 8,
+     "simulate": {"quick": "-simulate num=60 -depth 700", "thorough": "-simulate num=2500 -depth 700"},
+     "timeout": {"quick": 600, "thorough": 3000},
+     "what": "random walks (TLC -simulate) through partition {0}|{1,2}, mutual Down, heal, convergence; 3 renewable instances"},
+]
+TEXT["C05"]["level_text"] = ("TLC explores MC_Cluster in partition/heal mode (3 renewable FocaNode instances, announce-to-down on) by random "
+                             "walks with the C05 monitor as invariant (the exhaustive run exceeds 1.5*10^7 states without finishing, so "
+                             "no exhaustiveness is claimed). ") + TEXT["C05"]["level_text"]
+TEXT["C05"]["technique"] = "TLA+ spec + TLC random walks on MC_Cluster (partition/heal) + " + TEXT["C05"]["technique"]
